@@ -2,3 +2,4 @@ import HkModel.Model.Queue
 import HkModel.Obs.Queue
 import HkModel.Props.Queue
 import HkModel.Props.C06
+import HkModel.Props.C16
